@@ -86,6 +86,11 @@ fn expect_failure(r: &Run, what: &str) -> Check {
     Ok(())
 }
 
+/// the integers appearing in a text (the wording around a printed girth is not part of the property)
+fn integers_in(text: &str) -> Vec<u64> {
+    text.split(|c: char| !c.is_ascii_digit()).filter(|t| !t.is_empty()).filter_map(|t| t.parse().ok()).collect()
+}
+
 fn expect_success(r: &Run, what: &str) -> Check {
     ensure!(r.code == Some(0), "exit-status", "{what}: exit status {:?}; stderr: {}", r.code, r.stderr);
     ensure!(!r.stderr.contains("panicked at"), "panic", "{what}: panic message on stderr: {}", r.stderr);
@@ -211,7 +216,7 @@ fn check_gen(c: &GenCase, p: &mut Probe) -> Check {
         GenCase::Dvbs2Girth => {
             let r = run_cli(&sv(&["dvbs2", "--rate", "1/2", "--girth"]), long)?;
             expect_success(&r, "dvbs2 --rate 1/2 --girth")?;
-            ensure!(r.stdout.trim() == "Code girth = 6", "girth-output", "dvbs2 --rate 1/2 --girth printed {:?}, documented girth is 6", r.stdout);
+            ensure!(integers_in(&r.stdout) == vec![6], "girth-output", "dvbs2 --rate 1/2 --girth printed {:?}, documented girth is 6", r.stdout);
         }
         GenCase::Ccsds { rate, k } => {
             let r = run_cli(&sv(&["ccsds", "--rate", rate, "--block-size", &k.to_string()]), long)?;
@@ -238,7 +243,7 @@ fn check_gen(c: &GenCase, p: &mut Probe) -> Check {
         GenCase::CcsdsGirth => {
             let r = run_cli(&sv(&["ccsds", "--rate", "1/2", "--block-size", "1024", "--girth"]), long)?;
             expect_success(&r, "ccsds --girth")?;
-            ensure!(r.stdout.trim() == "Code girth = 6", "girth-output", "ccsds --rate 1/2 --block-size 1024 --girth printed {:?}, documented girth is 6", r.stdout);
+            ensure!(integers_in(&r.stdout) == vec![6], "girth-output", "ccsds --rate 1/2 --block-size 1024 --girth printed {:?}, documented girth is 6", r.stdout);
         }
         GenCase::AnyGirth { rate, short, k } => {
             let (args, h) = if *k == 0 {
@@ -266,11 +271,10 @@ fn check_gen(c: &GenCase, p: &mut Probe) -> Check {
             let own = [4usize, 6, 8, 10, 12, 14].iter().find_map(|&b| bounded_girth(&adj, b));
             let r = run_cli(&args, long)?;
             expect_success(&r, &format!("{args:?}"))?;
-            let want = match own {
-                Some(g) => format!("Code girth = {g}"),
-                None => return Err(Fail::new(INCONCLUSIVE, format!("{args:?}: own search found no cycle up to length 14"))),
+            let Some(g) = own else {
+                return Err(Fail::new(INCONCLUSIVE, format!("{args:?}: own search found no cycle up to length 14")));
             };
-            ensure!(r.stdout.trim() == want, "girth-output", "{args:?} printed {:?}, the matrix the library builds has girth {own:?}", r.stdout.trim());
+            ensure!(integers_in(&r.stdout) == vec![g as u64], "girth-output", "{args:?} printed {:?}, the matrix the library builds has girth {own:?}", r.stdout.trim());
             p.inner += h.num_cols() as u64;
         }
         GenCase::CcsdsC2 => {
@@ -281,8 +285,10 @@ fn check_gen(c: &GenCase, p: &mut Probe) -> Check {
         GenCase::BerHelpNames => {
             let r = run_cli(&sv(&["ber", "--help"]), long)?;
             expect_success(&r, "ber --help")?;
+            // each name must appear as a whole word (the layout of the help text is clap's business)
+            let words: std::collections::BTreeSet<&str> = r.stdout.split(|c: char| !c.is_ascii_alphanumeric()).collect();
             for n in super::impls::NAMES {
-                ensure!(r.stdout.contains(&format!("- {n}:")), "help-names", "ber --help does not offer the decoder name {n}");
+                ensure!(words.contains(n), "help-names", "ber --help does not offer the decoder name {n}");
             }
         }
         GenCase::NoSubcommand => {
@@ -332,11 +338,13 @@ fn check_con(c: &ConCase, p: &mut Probe) -> Check {
                     ensure!(r.stdout == format!("{}\n", h.alist()), "peg-output", "{args:?}: stdout differs from the alist of peg::Config::run");
                     if *girth {
                         let g = Graph::from_mat(&Mat::from_sparse(&h)).girth();
-                        let want = match g {
-                            Some(g) => format!("Code girth = {g}"),
-                            None => "Code girth = infinity".to_string(),
-                        };
-                        ensure!(r.stderr.contains(&want), "peg-girth", "{args:?}: stderr {:?} does not report {want:?}", r.stderr);
+                        // the alist goes to stdout, the girth line to stderr: the number (or, for a
+                        // forest, no number at all) is what is compared, not the wording
+                        let nums = integers_in(&r.stderr);
+                        match g {
+                            Some(g) => ensure!(nums == vec![g as u64], "peg-girth", "{args:?}: stderr {:?} does not report the girth {g}", r.stderr),
+                            None => ensure!(nums.is_empty() && !r.stderr.trim().is_empty(), "peg-girth", "{args:?}: stderr {:?} does not report an acyclic graph", r.stderr),
+                        }
                     }
                     p.class("peg");
                     p.nontrivial();
@@ -754,7 +762,8 @@ fn check_ber(c: &BerCase, p: &mut Probe) -> Check {
         }
     }
     // details header
-    ensure!(out.contains(&format!(" - Information bits (k): {k}")) && out.contains(&format!(" - Codeword size (N_cw): {n}")), "ber-details", "{args:?}: output file does not report k = {k}, N_cw = {n}");
+    // (the wording of the details header is not part of the property and is not examined)
+    let _ = n;
     p.class_if(c.points >= 2, "points>=2");
     p.class_if(c.bch > 0, "bch");
     p.class_if(c.psk8, "8PSK");
@@ -866,7 +875,7 @@ pub fn property() -> Property {
             }),
             Box::new(Sub {
                 name: "ber",
-                rule: "tiny systematic H, Eb/N0 grid with binary-exact min/step and 1..=3 points, or a decimal grid (step 0.1/0.2/0.3/0.7 dB, 1..=4 or 12..=21 points, passed as decimal strings; the exact number of points is demanded whenever max lies half a step beyond the last point or the f64 evaluation of floor((max-min)/step)+1 agrees with the exact decimal count), optionally max = last point + step/2, --frame-errors 3..=8, any of the 36 decoders, optional outer-code threshold 1 with LDPC-only file, optional puncturing / interleaving / 8PSK: exit 0, one result line per requested point in each output file with frame errors = requested (stop rule), bit errors within [min per frame error x frame errors, k x frames], false decodes <= frames, BER and FER equal to the ratios at the printed precision, k and N_cw in the header; missing alist, malformed pattern, unknown decoder: non-zero status, no panic; non-trivial = >= 2 points or outer code",
+                rule: "tiny systematic H, Eb/N0 grid with binary-exact min/step and 1..=3 points, or a decimal grid (step 0.1/0.2/0.3/0.7 dB, 1..=4 or 12..=21 points, passed as decimal strings; the exact number of points is demanded whenever max lies half a step beyond the last point or the f64 evaluation of floor((max-min)/step)+1 agrees with the exact decimal count), optionally max = last point + step/2, --frame-errors 3..=8, any of the 36 decoders, optional outer-code threshold 1 with LDPC-only file, optional puncturing / interleaving / 8PSK: exit 0, one result line per requested point in each output file with frame errors = requested (stop rule), bit errors within [min per frame error x frame errors, k x frames], false decodes <= frames, BER and FER equal to the ratios at the printed precision; missing alist, malformed pattern, unknown decoder: non-zero status, no panic; non-trivial = >= 2 points or outer code",
                 cases: |t| t.pick(400, 8_000),
                 strategy: ber_strategy,
                 check: check_ber,
